@@ -13,11 +13,13 @@ fi
 (cd "$d" && GOFLAGS=-mod=mod GOPROXY=off GOSUMDB=off go build ./... ) || { echo "mutant does not build"; rm -rf "$d"; exit 3; }
 if [ -n "$MUT_TESTS" ]; then (cd "$d" && GOFLAGS=-mod=mod GOPROXY=off GOSUMDB=off go test -vet=off -count=1 . 2>&1 | tail -2); fi
 cd /verif
+stamp=$(mktemp /tmp/vstamp.XXXXXX)
 cp -r evidence /tmp/vmut-evidence.$$ 2>/dev/null
 VERIF_REPO="$d" ./check "$id" "$tier" 2>&1 | grep -v '^    ' | tail -12
 rc=${PIPESTATUS[0]}
 rm -rf evidence; mv /tmp/vmut-evidence.$$ evidence 2>/dev/null
-git -C /verif status --short replays | awk '{print $2}' | xargs -r rm -rf
+find /verif/replays -type f -newer "$stamp" -print0 2>/dev/null | xargs -0 -r rm -f
 rm -rf "$d"
+rm -f "$stamp"
 echo "mutant exit=$rc"
 exit $rc
